@@ -93,6 +93,27 @@ static void exec_c17(const plan_t *p)
         int r1, r2, r3, r4, r5;
         ver_t va, vb;
         R.cur_op = o; R.cur_op_index = i; R.op_steps = 0;
+        if (!strcmp(o->kind, "longrun")) {
+            /* one run of a[0] characters of one class (a[1]): longer than a 16-bit index can count.  Written out in a plan it would be a
+               hundred kilobytes of text per operation, so the executor makes the strings.  "whatever the length of any run": the call
+               comes back, says EQUAL for the string and itself, and mirror-image answers for the string and a twin that differs at the end */
+            size_t n = (size_t)o->a[0];
+            char ch = (char)o->a[1], *x, *y;
+            int e1, e2, e3;
+            if (n < 2 || n > 200000) continue;
+            x = sim_malloc(n + 8); y = sim_malloc(n + 8);
+            memcpy(x, "1.0", 3); memset(x + 3, ch, n); x[n + 3] = 0;
+            memcpy(y, x, n + 4); y[n + 2] = ch == '9' ? '8' : ch == 'z' ? 'y' : ch == '.' ? '-' : ch;
+            e1 = sgn(spiftool_version_compare((spif_charptr_t)x, (spif_charptr_t)x));
+            e2 = sgn(spiftool_version_compare((spif_charptr_t)x, (spif_charptr_t)y));
+            e3 = sgn(spiftool_version_compare((spif_charptr_t)y, (spif_charptr_t)x));
+            tr_printf("longrun %zu x '%c' -> %d %d %d", n, ch, e1, e2, e3);
+            if (e1 != 0) sim_fail("MISMATCH(reflexivity)", "a string with a run of %zu characters compared with itself gives %d", n, e1);
+            if (e3 != -e2) sim_fail("MISMATCH(antisymmetry)", "run of %zu characters: compare(a,b)=%d but compare(b,a)=%d", n, e2, e3);
+            sim_free(x); sim_free(y);
+            probe_hit("run_beyond_65536");
+            continue;
+        }
         if (strcmp(o->kind, "cmp") || !o->has_s || !o->has_t) continue;
         a = blockdup(o->s, o->slen); b = blockdup(o->t, o->tlen);
         paint_stack((int)o->a[0], 4096);
@@ -204,6 +225,10 @@ static void gen_c17(plan_t *p, rng_t *r)
             op_str(o, a, na); op_str2(o, b, nb);
         }
         return;
+    }
+    if (rng_chance(r, 1, 300)) {
+        static const long big[] = { 32767, 32768, 65535, 65536, 65537, 70000, 131072 };
+        plan_op(p, 0, "longrun", 2, big[rng_below(r, 7)], (long)"az9."[rng_below(r, 4)]);
     }
     for (int i = 0; i < nops; i++) {
         size_t na, nb;
@@ -561,6 +586,14 @@ static void exec_c14(const plan_t *p)
             spif_url_del(u2);
             sim_free(canon);
         }
+        if (!wellformed && o->slen > 3000) {
+            /* too long for the reference's fields: the text is still rebuilt and parsed again, for what the allocator and the sanitizer have to say about it */
+            if (spif_url_unparse(u)) {
+                spif_url_t again = spif_url_new_from_ptr((spif_charptr_t)SPIF_STR_STR(SPIF_STR(u)));
+                if (again) { get_components(again, &got3, "reparse of a long URL"); spif_url_del(again); }
+            }
+            probe_hit("url_of_several_kilobytes_rebuilt");
+        }
         if (o->na > 4 && o->a[4] == 1) {
             /* the components are strings the URL owns: a copy taken now reports the same ones after the original is gone (and, a4 == 1 only in
                plans generated after seeded round 13, after a fresh URL was built in the storage the original gave back) */
@@ -603,7 +636,7 @@ static void gen_c14(plan_t *p, rng_t *r)
     plan_knob(p, "alloc.zero", rng_chance(r, 1, 4)); plan_knob(p, "alloc.realloc0", rng_chance(r, 1, 4));      /* the two readings ISO C allows for a request of no bytes */
     plan_knob(p, "alloc.realloc", rng_range(r, 0, 2));
     for (int i = 0; i < nops; i++) {
-        char txt[4000], w[1300];
+        static char txt[40000]; char w[1300];
         size_t n = 0;
         int wf = rng_chance(r, 4, 5);
         op_t *o;
@@ -637,7 +670,14 @@ static void gen_c14(plan_t *p, rng_t *r)
                            int hl = rng_chance(r, 1, 25) ? big[rng_below(r, 9)] : LONGW(1, 12); gen_word(r, w, hl, hl, HOSTAL);      /* now and then a host as long as any scratch buffer one might copy it into */ n += (size_t)snprintf(txt + n, sizeof(txt) - n, "%s", w);
                            if (hasport) { n += (size_t)snprintf(txt + n, sizeof(txt) - n, ":"); n += (size_t)snprintf(txt + n, sizeof(txt) - n, portfmt[rng_below(r, 7)], rng_chance(r, 1, 10) ? 1234567 : rng_below(r, 65536)); } }
             if (haspath) {
-                if (rng_chance(r, 1, 15)) { int pl = rng_range(r, 200, 254); txt[n++] = '/'; txt[n++] = 'p'; for (int q = 1; q < pl; q++) txt[n++] = "abc/._-"[rng_below(r, 7)]; txt[n] = 0; }       /* a long path */
+                if (rng_chance(r, 1, 60)) {
+                    /* a component of several kilobytes (and, one time in two, a second one behind it): the sizes where a string's growth policy may change.  Beyond the
+                       reference's fields, so only what the sanitizer and the allocator see is checked */
+                    static const int huge[] = { 4090, 4096, 4097, 5000, 8191, 8200, 10000 };
+                    int pl = huge[rng_below(r, 7)]; txt[n++] = '/'; txt[n++] = 'p'; for (int q = 1; q < pl; q++) txt[n++] = "abc/._-"[rng_below(r, 7)]; txt[n] = 0;
+                    if (rng_chance(r, 1, 2)) { int ql = huge[rng_below(r, 7)]; txt[n++] = '?'; for (int q = 0; q < ql; q++) txt[n++] = "abc=&"[rng_below(r, 5)]; txt[n] = 0; hasquery = 0; }
+                }
+                else if (rng_chance(r, 1, 15)) { int pl = rng_range(r, 200, 254); txt[n++] = '/'; txt[n++] = 'p'; for (int q = 1; q < pl; q++) txt[n++] = "abc/._-"[rng_below(r, 7)]; txt[n] = 0; }       /* a long path */
                 else { gen_word(r, w, 0, 20, rng_chance(r, 1, 4) ? "abC/._-@:" : "abc/._-@:"); n += (size_t)snprintf(txt + n, sizeof(txt) - n, "/%s", w); }
             }
             if (hasquery) { gen_word(r, w, 0, 20, "abc=&?/:@ "); n += (size_t)snprintf(txt + n, sizeof(txt) - n, "?%s", w); }
